@@ -227,7 +227,20 @@ func (g *Gen) tplFenv() []L.Stmt {
 	f := g.fresh("ef")
 	g.class("fenv")
 	out := []L.Stmt{local1(env, tbl(kv(str("emit"), name("emit")), kv(str("gv"), str("from env")), kv(str("setfenv"), name("setfenv")), kv(str("getfenv"), name("getfenv"))))}
-	switch g.n(5, "fenvform") {
+	switch g.n(7, "fenvform") {
+	case 5, 6:
+		// every evaluation of a function expression makes a function object of its own, also when it captures nothing:
+		// setfenv on one of them leaves its siblings alone
+		g.class("fenv:sibling_closures")
+		inner := fn(nil, false, blk(ret(name("gv"))))
+		if g.n(2, "viafactory") == 0 {
+			out = append(out, &L.LocalFuncStmt{Name: f, Fn: fn(nil, false, blk(ret(inner)))}, local([]string{"s1", "s2"}, call(name(f)), call(name(f))))
+		} else {
+			out = append(out, local1("sibs", tbl()), &L.NumForStmt{Var: "i", Start: num(1), End: num(2), Body: blk(assign1(idx(name("sibs"), name("i")), inner))}, local([]string{"s1", "s2"}, idx(name("sibs"), num(1)), idx(name("sibs"), num(2))))
+		}
+		out = append(out, assign1(name("gv"), str("global gv")), emit(bin("==", name("s1"), name("s2")), call(name("s1")), call(name("s2"))),
+			callStmt(call(name("setfenv"), name("s1"), name(env))), emit(call(name("s1")), call(name("s2")), bin("==", call(name("getfenv"), name("s1")), name(env)), bin("==", call(name("getfenv"), name("s2")), name(env))),
+			assign1(name("gv"), &L.NilExpr{}))
 	case 0:
 		// setfenv(f, t): reads and writes of free names go to t; a nested closure inherits it
 		fe := fn(nil, false, blk(emit(str("in f"), name("gv")), assign1(name("made"), num(1)), ret(fn(nil, false, blk(assign1(name("nested"), num(2)), ret(name("gv")))))))
